@@ -310,12 +310,14 @@ func Decode[T any](c Cursor, obj Object, decode func(Cursor, Object, bool) (T, e
 		}
 		refs = append(refs, ref)
 
+		verifSched("get")
 		obj, err = x.R.Get(ref, true)
 		if err != nil {
 			return zero, err
 		}
 	}
 
+	verifSched("decode")
 	isDirect := len(refs) == 0
 	res, err := decode(Cursor{x: x, path: path}, obj, isDirect)
 	if err != nil {
@@ -355,7 +357,9 @@ func DecodeExclusive[T any](c Cursor, obj Object, decode func(Cursor, Object, bo
 	}
 	key := extractorKey{ref: ref, tp: reflect.TypeFor[T]()}
 
+	verifSched("excl:enter")
 	x.mu.Lock()
+	verifLocked(&x.mu, "excl:enter")
 	if v, ok := x.cache[key]; ok {
 		x.mu.Unlock()
 		r, _ := v.(T)
@@ -363,6 +367,7 @@ func DecodeExclusive[T any](c Cursor, obj Object, decode func(Cursor, Object, bo
 	}
 	if p, ok := x.wip[key]; ok {
 		x.mu.Unlock()
+		verifSchedWait("excl:wait", p.done)
 		<-p.done
 		if p.err != nil {
 			return zero, p.err
@@ -376,7 +381,9 @@ func DecodeExclusive[T any](c Cursor, obj Object, decode func(Cursor, Object, bo
 
 	res, err := Decode(c, obj, decode)
 
+	verifSched("excl:publish")
 	x.mu.Lock()
+	verifLocked(&x.mu, "excl:publish")
 	p.val, p.err = res, err
 	delete(x.wip, key)
 	x.mu.Unlock()
